@@ -37,9 +37,12 @@ SCALE = {"ok": 1.0, "small": 0.1, "zero": 0.0, "asc": -1.0, "big": 30.0}
 
 class Problem:
     """data of one least-squares problem (pure function of the seed)"""
-    def __init__(self, seed, n, gkind, ill):
+    def __init__(self, seed, n, gkind, ill, prior=False):
         rs = np.random.RandomState(seed)
         self.n, self.gkind = n, gkind
+        # prior=True: the first residual block is the parameter itself (a prior / Tikhonov term r = theta, shape (n, 1) as the LM
+        # docs ask): the model OUTPUT then shares storage with the parameter the optimizer updates in place
+        self.prior = prior
         M = n + 2
         self.a = rs.randn(M, n)
         if ill:
@@ -63,8 +66,18 @@ class Problem:
             return R.qrot(X[3:7]) @ p + X[:3]
         return R.qrot(X) @ p
 
+    def res1(self, theta):
+        return np.asarray(theta, dtype=np.float64).copy() if self.prior else np.arctan(self.c * (self.a @ theta)) - self.y
+
+    def resvec(self, state):
+        """all residuals at a state, concatenated in the order the model returns them"""
+        r = [self.res1(state[0])]
+        if self.gkind:
+            r.append((np.stack([self.act(state[1], p) for p in self.p]) - self.q).reshape(-1))
+        return np.concatenate(r)
+
     def loss(self, theta, X, kernel, kd):
-        r1 = np.arctan(self.c * (self.a @ theta)) - self.y
+        r1 = self.res1(theta)
         tot = float(np.sum(rho0(kernel, kd, r1 ** 2)))
         if self.gkind:
             r2 = np.stack([self.act(X, p) for p in self.p]) - self.q
@@ -104,7 +117,10 @@ class Net(nn.Module):
         return self.W[:, 0] if self.strided else self.theta
 
     def forward(self, dummy):
-        r1 = (torch.atan(self.c * (self.a @ self._theta())) - self.y).unsqueeze(-1)
+        if self.prob.prior:
+            r1 = self._theta().unsqueeze(-1)          # a view of the parameter, not a copy
+        else:
+            r1 = (torch.atan(self.c * (self.a @ self._theta())) - self.y).unsqueeze(-1)
         if self.prob.gkind:
             return r1, self.X.Act(self.p) - self.q
         return r1
@@ -149,7 +165,8 @@ class RecStrategy:
         after = {k: (float(v) if not isinstance(v, (list, torch.Tensor)) else None) for k, v in pg.items() if k != "params"}
         JD = (J @ D)
         den = float(-(JD.mT @ (2 * R + JD)).squeeze())
-        self.log.append({"before": before, "after": after, "last": float(last), "loss": float(loss), "den": den})
+        self.log.append({"before": before, "after": after, "last": float(last), "loss": float(loss), "den": den,
+                         "R": R.detach().reshape(-1).clone().numpy(), "JD": JD.detach().reshape(-1).clone().numpy()})
 
 
 def make_strategy(spec):
@@ -255,11 +272,12 @@ def retract_state(prob, s, D):
 
 
 def run_history(case, rec):
-    prob = Problem(case["seed"], case["n"], case["gkind"], case["ill"])
+    prior = tu.crc(case, "prior") % 4 == 1
+    prob = Problem(case["seed"], case["n"], case["gkind"], case["ill"], prior=prior)
     kern, kd = case["kernel"], case["kdelta"]
     strided = (case["seed"] + len(case["script"])) % 3 == 0
     net = Net(prob, strided=strided)
-    rec.label("params:strided" if strided else "params:contiguous")
+    rec.label("params:strided" if strided else "params:contiguous", "model:prior_residual_is_a_view_of_the_parameter" if prior else "model:atan")
     if strided and net.W.is_contiguous() and net.W.shape[0] > 1:
         raise core_HarnessError("strided parameter came out contiguous")
     solver = ScriptSolver(case["script"], net)
@@ -332,6 +350,16 @@ def run_history(case, rec):
             # strategy saw (cross-checked against the harness when the trial was the accepted one)
             hloss = true_loss if (t_i == len(logs) - 1 and not last_sym.startswith("raise:") and
                                   (true_loss <= prev_loss or opt.reject_count == case["reject"])) and state_dist(prob, cur, prev_state) > 0 else None
+            # the residual handed to the strategy is the residual at the parameters the trial started from (the linearisation point of
+            # the documented quality = actual / predicted decrease, predicted = -(J D)^T (2 R + J D)); without kernel it is the plain
+            # concatenation of the model outputs.  The harness recomputes it from its own copy of those parameters and uses ITS value
+            # for the predicted decrease (an R that aliases the model output is overwritten by the in-place update - seed C08h)
+            if kern is None and t_i < len(solved):
+                Rh = prob.resvec(solved[t_i][1])
+                if rec.check(e["R"].shape == Rh.shape and float(np.abs(e["R"] - Rh).max()) <= 1e-9 * max(1.0, float(np.abs(Rh).max())), "strategy_R",
+                             lambda: "step %d trial %d: the residual handed to the strategy differs from the residual at the parameters the trial started from by %.3g" % (stepi, t_i, float(np.abs(e["R"] - Rh).max()) if e["R"].shape == Rh.shape else float("nan"))):
+                    rec.label("strategy_R_recomputed")
+                e = dict(e, den=float(-(e["JD"] @ (2 * Rh + e["JD"]))))
             check_transition(rec, case["strategy"], e, prev_loss, hloss)
             if t_i + 1 < len(logs):
                 nb, pa = logs[t_i + 1]["before"], e["after"]
